@@ -707,7 +707,7 @@ def c15(tier):
         "rule": "for each accepted document (repository schemas/WSDLs, synthetic WSDLs, four single-emitter minis) write_xml runs on "
                 "a sink that fails at write call k, for every k when the document has <= max_all write calls (else first/last "
                 "max_all/2 plus a seeded sample), x {fail once then healthy, fail forever} x error kinds {Other, WriteZero, BrokenPipe, "
-                "StorageFull} (all kinds for small documents and k<64, one rotating kind otherwise); expected outcome: "
+                "StorageFull, WouldBlock, TimedOut, PermissionDenied} (all kinds for small documents and k<64, one rotating kind otherwise); expected outcome: "
                 "Err(WriterError::Io), never Ok, never panic; plus 4 short-write patterns whose collected bytes must equal the "
                 "unconstrained output. evaluations = injected failures; distinct_nontrivial = distinct (document, written chunk) "
                 "pairs at which a failure was injected (chunk identity ~ emitting call site)",
